@@ -33,7 +33,8 @@ TOK = ["{{T||1=x}}", "{{a|", "|1=", "||", "a", " ", "\n", "==", "===", "=", "* "
        "<b>", "</b>", "<i>", "</i>", "<pre>", "</pre>", "<br>", "<br/>", "<ref>", "</ref>", "<span class=\"x\">", "</span>",
        "</span x>", "<nowiki>", "</nowiki>", "<nowiki/>", "<!--", "-->", "<div>", "</div>", "<table>", "<tr>", "<td>", "</td>",
        "</tr>", "</table>", "<li>", "<ul>", "</ul>", "__TOC__", "-{", "}-", "&amp;", "<math>", "</math>", "<hiero>", "</x>",
-       "[[File:a.png|thumb|", "[//e.org:443 s]", "</br/>"]
+       "[[File:a.png|thumb|", "[//e.org:443 s]", "</br/>", "<span class={{a}}>", "<b id=a<nowiki/>b>", "<pre class={{a|x}}>",
+       "<div id={{{1}}}>"]
 LIST_KINDS = {NodeKind.LIST}
 MAGIC_LO = MAGIC_NUMBER
 
